@@ -331,6 +331,20 @@ impl Session {
                     json!({"ok":true,"views":[],"deferred":true})
                 }
             },
+            "break_addr_deferred" => {
+                let a = RelocatedAddress::from(u("addr"));
+                match self.d().set_breakpoint_at_addr(a) {
+                    Ok(v) => json!({"ok":true,"views":[view_json(&v)],"deferred":false}),
+                    Err(_) => {
+                        self.d().add_deferred_at_addr(a);
+                        json!({"ok":true,"views":[],"deferred":true})
+                    }
+                }
+            }
+            "defer_addr" => {
+                self.d().add_deferred_at_addr(RelocatedAddress::from(u("addr")));
+                json!({"ok":true,"views":[],"deferred":true})
+            }
             "break_line_deferred" => match self.d().set_breakpoint_at_line(&s("file"), u("line")) {
                 Ok(v) => json!({"ok":true,"views":v.iter().map(view_json).collect::<Vec<_>>(),"deferred":false}),
                 Err(_) => {
